@@ -390,6 +390,8 @@ pub struct Model {
     pub extra_name_len: [u8; 2],
     pub write_open: bool,
     pub commits: u64,
+    /// durable commits that carried at least one effective put/delete/clear/create
+    pub mutating_commits: u64,
     /// verification hook: when false, `commit()` reports success but nothing becomes durable
     /// (what a process kill just before the commit point leaves behind)
     pub commit_durable: bool,
@@ -402,7 +404,7 @@ impl Model {
         Model {
             committed: Tables::new(), pending: Tables::new(), dirty: [false; NT], created: [false; NT],
             created_pending: [false; NT], extra_names: [[0; 16]; 2], extra_name_len: [0; 2], write_open: false,
-            commits: 0, commit_durable: true,
+            commits: 0, mutating_commits: 0, commit_durable: true,
             #[cfg(not(kani))]
             dir: None,
         }
@@ -411,6 +413,11 @@ impl Model {
 
 #[cfg(kani)]
 static mut THE_MODEL: Model = Model::new();
+
+/// Verification hook: when set, `commit()` is durable only if this gate says so.  Harnesses
+/// point it at the mmap-append model's effect counter, so that a commit takes its place in the
+/// single program-order sequence of persistent effects that a process kill cuts.
+pub static mut EFFECT_GATE: Option<fn() -> bool> = None;
 
 /// Under Kani every access names the static directly (a pointer loaded back from a
 /// struct field makes CBMC treat each access as a byte-level update of the whole object).
@@ -440,6 +447,11 @@ pub mod verif {
     }
     pub fn commits(env: &Env) -> u64 {
         mref(env.m).commits
+    }
+    /// number of durable commits that changed a committed table (a commit of a transaction
+    /// without an effective put / delete / clear / create changes nothing observable)
+    pub fn mutating_commits(env: &Env) -> u64 {
+        mref(env.m).mutating_commits
     }
 }
 
@@ -785,16 +797,28 @@ impl<'e> RwTxn<'e> {
     }
     pub fn commit(mut self) -> Result<()> {
         let m = mref(self.txn.m);
-        if m.commit_durable {
+        let gate_ok = match unsafe { EFFECT_GATE } {
+            Some(f) => f(),
+            None => true,
+        };
+        if m.commit_durable && gate_ok {
             let mut t: u8 = 0;
+            let mut any = false;
             while (t as usize) < NT {
                 if m.dirty[t as usize] {
                     copy_table!(m.committed, m.pending, t);
+                    any = true;
+                }
+                if m.created[t as usize] != m.created_pending[t as usize] {
+                    any = true;
                 }
                 t += 1;
             }
             m.created = m.created_pending;
             m.commits += 1;
+            if any {
+                m.mutating_commits += 1;
+            }
             #[cfg(not(kani))]
             native::save(m);
         }
@@ -879,6 +903,18 @@ impl<KC, DC> Database<KC, DC> {
             model_limit("value longer than modelled");
         }
         let id = self.id;
+        // a put that rewrites the bytes already there changes nothing: do not dirty the table
+        let same = {
+            let tables = txn.txn.tables_for(id);
+            let cur: Option<&[u8]> = on_table!(tables, id, |t| t.get(&kb[..kl]));
+            match cur {
+                Some(c) => bytes_eq(c, &vb[..vl]),
+                None => false,
+            }
+        };
+        if same {
+            return Ok(());
+        }
         let tables = txn.tables_mut(id);
         on_table_mut!(tables, id, |t| t.put(&kb[..kl], &vb[..vl]))
     }
